@@ -363,42 +363,48 @@ ASSUME = ["C14: the production order seen by the parser is explored as the inser
           "C14: grammars are CFG(p,v,t,b) tuples in canonical (sorted, duplicate-free) form whose first production "
           "has head S; grammars with a useless symbol are assumed away (oracle predicate), for c14_parse* also "
           "the grammars that are not LL(1) according to the oracle"]
-TIMEOUT = {"quick": 900, "thorough": 3000}
+TIMEOUT = {"quick": 1500, "thorough": 3000}
 
 BASE = "CFG(p productions, variables {S,A}, terminals {a,b}, bodies of length <=2)"
 V3 = ("CFG(4 productions, variables {S,A,B}, terminals {a,b}, bodies of length <=2) restricted to the shapes "
       "[S -> A | any, A -> eps | any] and [S -> A x, A -> x, B -> eps | any] (x any symbol)")
-B3 = "CFG(3 productions, variables {S,A}, terminals {a,b}, bodies of length <=3) of the shape [S -> x y z, A -> eps | x]"
+B3 = ("CFG(3 productions, variables {S,A}, terminals {a,b}, bodies of length <=3) of the shapes "
+      "[S -> x y z, A -> eps | x] and [S -> eps | x y z, A -> x] (x, y, z any symbols)")
 WQ = " x all words of length <=3 over {a,b}"
 WT = " x all words of length <=3 over {a,b} and all words u.z with |u| <=2 over {a,b}, z unknown to the grammar"
 
+# (order: small conditions first - the runner profiles the executed library functions on the first 60 samples)
 CONDS = [
-    Cond("C14", c14_sets, _shards_sets,
-         {"quick": BASE + ": all with p<=2; of p=3 those whose smallest production is S -> eps followed by another "
-                   "S-production, or S -> A; productions handed over as a set (for [S -> A, two A-productions] "
-                   "also as a reversed list)",
-          "thorough": BASE + ": all with p<=3, productions handed over as a set and (p=3) as a reversed list"},
+    Cond("C14", c14_parse_v3, _shards_parse_v3,
+         {"quick": "LL(1) grammars of the shape [S -> A x, A -> B | a, B -> eps | x] over variables {S,A,B}, terminals "
+                   "{a,b} (x any symbol)" + WQ,
+          "thorough": "LL(1) grammars of the shape [S -> A x, A -> x, B -> eps | any body of length <=2] over variables "
+                      "{S,A,B}, terminals {a,b}" + WT},
+         FUNCS, RULE, assumptions=ASSUME, shard_timeout=TIMEOUT),
+    Cond("C14", c14_parse_b3, _shards_parse_b3,
+         {"quick": "LL(1) grammars of the shapes [S -> A y z, A -> eps | x] and [S -> eps | A S z, A -> x] over variables "
+                   "{S,A}, terminals {a,b}" + WQ,
+          "thorough": "LL(1) grammars " + B3 + " whose body of length 3 does not start with S" + WT},
+         FUNCS, RULE, assumptions=ASSUME, shard_timeout=TIMEOUT),
+    Cond("C14", c14_sets_b3, _shards_sets_b3,
+         {"quick": B3 + ": first shape with x = A or a, second shape with x = A; as a set",
+          "thorough": B3 + "; as a set and as a reversed list"},
          FUNCS, RULE, assumptions=ASSUME, shard_timeout=TIMEOUT),
     Cond("C14", c14_sets_v3, _shards_sets_v3,
          {"quick": V3 + ": second S-production a single symbol or a x (x any), last B-production of length 1; as a set",
           "thorough": V3 + "; as a set and with the first three productions reversed in a list"},
          FUNCS, RULE, assumptions=ASSUME, shard_timeout=TIMEOUT),
-    Cond("C14", c14_sets_b3, _shards_sets_b3,
-         {"quick": B3 + " with first body symbol A or a; as a set",
-          "thorough": B3 + "; as a set and as a reversed list"},
-         FUNCS, RULE, assumptions=ASSUME, shard_timeout=TIMEOUT),
     Cond("C14", c14_parse, _shards_parse,
-         {"quick": BASE + ": the LL(1) ones with p<=2 (except first production S -> S x: none is LL(1)) and those "
-                   "with p=3 of the shapes [S -> A, S -> a|b|A x|a x, any] and [S -> A, two A-productions]" + WQ,
+         {"quick": BASE + ": the LL(1) ones with p<=2 (left out: smallest production S -> S x or S -> A x with a second "
+                   "S-production - never LL(1) - and S -> b x, symmetric to S -> a x) and those with p=3 of the shapes "
+                   "[S -> A, S -> a, any], [S -> A, S -> A x, any], [S -> A, S -> a x, A -> any], [S -> A, A -> any, A -> any]"
+                   + WQ,
           "thorough": BASE + ": all LL(1) ones with p<=3" + WT},
          FUNCS, RULE, assumptions=ASSUME, shard_timeout=TIMEOUT),
-    Cond("C14", c14_parse_v3, _shards_parse_v3,
-         {"quick": "LL(1) grammars of the shape [S -> A x, A -> x, B -> eps | x] over variables {S,A,B}, terminals {a,b}" + WQ,
-          "thorough": "LL(1) grammars of the shape [S -> A x, A -> x, B -> eps | any body of length <=2] over variables "
-                      "{S,A,B}, terminals {a,b}" + WT},
-         FUNCS, RULE, assumptions=ASSUME, shard_timeout=TIMEOUT),
-    Cond("C14", c14_parse_b3, _shards_parse_b3,
-         {"quick": "LL(1) grammars " + B3 + " with first body symbol A" + WQ,
-          "thorough": "LL(1) grammars " + B3 + " with first body symbol A, a or b" + WT},
+    Cond("C14", c14_sets, _shards_sets,
+         {"quick": BASE + ": all with p<=2; of p=3 those whose smallest production is S -> eps followed by another "
+                   "S-production, or S -> A; productions handed over as a set (for [S -> A, two A-productions] "
+                   "also as a reversed list)",
+          "thorough": BASE + ": all with p<=3, productions handed over as a set and (p=3) as a reversed list"},
          FUNCS, RULE, assumptions=ASSUME, shard_timeout=TIMEOUT),
 ]
